@@ -23,31 +23,20 @@ theorem alac_dyn_get_code (k n off : Nat) (rest : Bits) (hk1 : 1 ≤ k) (hoff : 
   dynGet_dynCode k n off rest hk1 hoff hn
 
 /-- a residual fits `b` bits -/
-def FitsBits (b : Nat) (x : Int) : Prop := -(2 : Int) ^ (b - 1) ≤ x ∧ x < (2 : Int) ^ (b - 1)
+def FitsBits (b : Nat) (x : Int) : Prop := Fits b x
 
 theorem alac_dyn_decomp_dyn_comp_inverse (bitSize : Nat) (hb1 : 1 ≤ bitSize) (hb : bitSize ≤ 31) (pc : List Int)
     (hfit : ∀ x ∈ pc, FitsBits bitSize x) (rest : Bits) (pos byteSize : Nat)
     (hroom : pos + (dynComp stdAg pc bitSize).length ≤ byteSize * 8) :
     dynDecomp stdAg ⟨dynComp stdAg pc bitSize ++ rest, pos⟩ byteSize pc.length bitSize =
-      (⟨true, pc, (dynComp stdAg pc bitSize).length⟩, ⟨rest, pos + (dynComp stdAg pc bitSize).length⟩) := by
-  have h := dynLoop_dynCompLoop bitSize hb1 hb (pos % 8) (byteSize * 8) (Nat.mod_lt _ (by decide)) pc.length pc pc.length 0 10 0 [] rest
-    (Nat.le_refl _) (Nat.le_refl _) (by decide) (by decide) (by intro h; omega) hfit
-    (by have := Nat.mod_le pos 8; simp only [dynComp, show stdAg.mb0 = 10 from rfl] at hroom; omega)
-  unfold dynDecomp
-  simp only [show stdAg.mb0 = 10 from rfl]
-  unfold dynComp at hroom ⊢
-  simp only [show stdAg.mb0 = 10 from rfl] at hroom ⊢
-  rw [h]
-  simp only [List.reverse_nil, List.nil_append, Nat.zero_add, Rd.advance, List.drop_left' rfl, Rd.curByte, Bool.true_and, Prod.mk.injEq,
-    AgRes.mk.injEq, and_true, true_and, decide_eq_true_eq]
-  have : pos = 8 * (pos / 8) + pos % 8 := (Nat.div_add_mod pos 8).symm
-  omega
+      (⟨true, pc, (dynComp stdAg pc bitSize).length⟩, ⟨rest, pos + (dynComp stdAg pc bitSize).length⟩) :=
+  dynDecomp_dynComp bitSize hb1 hb pc hfit rest pos byteSize hroom
 
 /-- non-vacuity: residuals with a zero run, an escape code and both signs -/
 example : (dynDecomp stdAg ⟨dynComp stdAg [3, -1, 0, 0, 0, 0, 70000, -70000, 0, 1] 18 ++ [true, false], 5⟩ 100
     [3, -1, 0, 0, 0, 0, 70000, -70000, 0, 1].length 18).1.out =
     [3, -1, 0, 0, 0, 0, 70000, -70000, 0, 1] := by
   rw [alac_dyn_decomp_dyn_comp_inverse 18 (by decide) (by decide) [3, -1, 0, 0, 0, 0, 70000, -70000, 0, 1]
-    (by intro x hx; simp at hx; rcases hx with rfl | rfl | rfl | rfl | rfl | rfl | rfl <;> (unfold FitsBits; decide)) _ 5 100 (by decide)]
+    (by intro x hx; simp at hx; rcases hx with rfl | rfl | rfl | rfl | rfl | rfl | rfl <;> (unfold FitsBits Fits; decide)) _ 5 100 (by decide)]
 
 end Sf.AlacCore
